@@ -575,6 +575,15 @@ def include_cases(rnd, n):
            "tag": "include", "meta": {"flat": L(" ORG $100", "B1 LDB #$10", " LBRA E", " CLRA", "E RTS")}}
     yield {"lines": L(" ORG $100", " INCLUDE c.asm", " INCLUDE b.asm", "E RTS"), "files": {"c.asm": L("; only a comment", ""), "b.asm": L("B1 LDB #$10", " LBRA E")},
            "tag": "include", "meta": {"flat": L(" ORG $100", "B1 LDB #$10", " LBRA E", "E RTS")}}
+    # include files named with a directory component, nested: every name is resolved from the working directory, as written
+    body = L(" ORG $0E00", "START LDX #MSG", " INCLUDE lib/mid.asm", " BRA START", "MSG FCC /HI/")
+    yield {"lines": body, "files": {"lib/mid.asm": L(" LDA ,X+", " INCLUDE lib/io/deep.asm", " CLRB"), "lib/io/deep.asm": L("OUT JSR $A002", " LEAY MSG,PCR")},
+           "tag": "include", "meta": {"flat": body[:2] + L(" LDA ,X+", "OUT JSR $A002", " LEAY MSG,PCR", " CLRB") + body[3:]}}
+    yield {"lines": L(" INCLUDE lib/a.asm", " NOP"), "files": {"lib/a.asm": L(" INCLUDE lib/b.asm"), "lib/b.asm": L("B1 CLRA"), "b.asm": L("B1 COMA"),
+                                                              "lib/lib/b.asm": L("B1 NEGA")},
+           "tag": "include", "meta": {"flat": L("B1 CLRA", " NOP")}}
+    yield {"lines": L(" INCLUDE lib/a.asm", " NOP"), "files": {"lib/a.asm": L(" INCLUDE b.asm"), "lib/b.asm": L("B1 CLRA"), "b.asm": L("B1 COMA")},
+           "tag": "include", "meta": {"flat": L("B1 COMA", " NOP")}}
     # missing file and cycles
     yield {"lines": L(" NOP", " INCLUDE nosuch.asm"), "files": {"other.asm": L(" NOP")}, "tag": "include-missing", "meta": {}}
     yield {"lines": L(" INCLUDE a.asm"), "files": {"a.asm": L(" NOP", " INCLUDE a.asm")}, "tag": "include-cycle", "meta": {}}
